@@ -69,6 +69,8 @@ def cells(tier):
     out += make_cells(PID, 'frame', tier, N=3, thin=plain, extra={'prefail': True}, suffix='after-refused-messages')
     # ... and when every story was re-sent by a roStorySend before
     out += make_cells(PID, 'frame', tier, N=3, thin=plain, extra={'presend': True}, suffix='after-roStorySend-of-every-story')
+    # mixed content: character data of the parent after stories, items and paragraphs
+    out += make_cells(PID, 'frame', tier, N=3, thin=plain, extra={'tails': True}, suffix='mixed-content')
     # the smallest shapes: one story / item, and every story / item of the container named by the message
     def small(n):
         def f(op, story_k, tk, sk, nk):
@@ -77,6 +79,7 @@ def cells(tier):
                 (sk is None or sk in (['existing'], ['existing', 'same'], ['existing', 'unknown'], ['existing', 'existing'], []))
         return f
     out += make_cells(PID, 'frame', tier, N=1, thin=small(1), suffix='single-element')
+    out += make_cells(PID, 'frame', tier, N=1, thin=small(1), extra={'tails': True}, suffix='mixed-content-single-element')
     out += make_cells(PID, 'frame', tier, N=2, thin=lambda op, story_k, tk, sk, nk: small(2)(op, story_k, tk, sk, nk) and
                       (sk or []).count('existing') == 2, suffix='all-elements-named')
     # roMetadataReplace into a running order without stories
